@@ -2,7 +2,7 @@
    Statements over the store machine Store/Model.v, for EVERY schema that passes the boolean
    well-formedness check, every fuel and every history of transactions. *)
 From Coq Require Import List NArith Bool.
-From Storage Require Import Base.Bytes Store.Model Store.UniqueProofs Store.WfSchema Store.SetIdxProofs Store.WfSetIdx.
+From Storage Require Import Base.Bytes Store.Model Store.UniqueProofs Store.WfSchema Store.SetIdxProofs Store.WfSetIdx Store.UniqueRejectProofs.
 Import ListNotations.
 
 (* After any history of committed / rolled-back transactions (creates, full and field-restricted
@@ -82,3 +82,106 @@ Proof.
   exact (run_tx_sinv sch s f H1 H2 H3 H4 H5 H6 H7 fuel st t).
 Qed.
 Print Assumptions set_index_step.
+
+(* ---------------------------------------------------------------- uniqueness is enforced *)
+(* Vocabulary (Store/UniqueRejectProofs.v):
+   [dup_at sch s f st i v]   : v is non-empty and some present entity j <> i of s holds v in field f;
+   [new_f sch s f cr sys fv ch e] : the bytes PersistEntity leaves in field f of the root entity when it
+       persists the field values fv under field checker ch over entity e ([new_f_is_supplied_value]: it is
+       v whenever f is a declared field admitted by the checker and the entity supplies Some v);
+   [before_unique f ks]      : the constraints registered before the unique index on f;
+   [upd_store sch st s0 i]   : the store BaseStore.Update really runs in (a root store hands over to the
+       first child store holding data for i). *)
+
+(* A create, through store s0 of root s, of an entity i whose persisted value of f is already held by
+   another present entity NEVER returns Ok.  It returns exactly Err EDuplicate whenever none of the
+   earlier checks fails first: id non-blank / not taken / a legal key, no pre-commit veto, and the hooks
+   of the constraints registered before the unique index succeed. *)
+Theorem unique_duplicate_rejected_create : forall sch s f oc st evs s0 i sys fv sv v,
+  wf_unique_b sch s f = true -> UInv sch s f st ->
+  root_of sch s0 = s -> dup_at sch s f st i v -> new_f sch s f true sys fv None ent_empty = v ->
+  exists k, op_create sch oc (st, evs) s0 i sys fv sv = Err k /\
+    (forall evs1 stm,
+       nonempty i = true -> present sch st s i = false -> key_ok i = true ->
+       fire_cu sch oc evs s0 Created i = Ok evs1 ->
+       after_update_all sch (set_ent st s i (persist sch s0 true sys fv sv None ent_empty))
+                        (mkIctx true (oc_sys oc) s i) (before_unique f (cons_of sch s)) [] = Ok stm ->
+       k = EDuplicate).
+Proof.
+  intros sch s f oc st evs s0 i sys fv sv v Hwf. destruct (wf_unique_b_sound sch s f Hwf) as [H1 [H2 [H3 [H4 H5]]]].
+  exact (op_create_dup sch s f H1 H4 oc st evs s0 i sys fv sv v).
+Qed.
+Print Assumptions unique_duplicate_rejected_create.
+
+(* The same for an update (full or field-restricted, entered through any store of root s): never Ok;
+   exactly Err EDuplicate when the entity is found, nothing vetoes, the before-hooks (system-entity
+   check) pass and the hooks registered before the unique index succeed. *)
+Theorem unique_duplicate_rejected_update : forall sch s f oc st evs s0 i fv sv ch v,
+  wf_unique_b sch s f = true -> UInv sch s f st ->
+  root_of sch s0 = s -> dup_at sch s f st i v -> new_f sch s f false false fv ch (cur_ent s st i) = v ->
+  exists k, op_update sch oc (st, evs) s0 i fv sv ch = Err k /\
+    (forall evs1 svs stm,
+       nonempty i = true -> present sch st (upd_store sch st s0 i) i = true ->
+       fire_cu sch oc evs (upd_store sch st s0 i) Updated i = Ok evs1 ->
+       before_chain sch st false (oc_sys oc) i (chain sch (upd_store sch st s0 i)) = Ok svs ->
+       after_update_all sch (set_ent st s i (persist sch (upd_store sch st s0 i) false false fv sv ch (cur_ent s st i)))
+                        (mkIctx false (oc_sys oc) s i) (before_unique f (cons_of sch s)) (hd [] svs) = Ok stm ->
+       k = EDuplicate).
+Proof.
+  intros sch s f oc st evs s0 i fv sv ch v Hwf. destruct (wf_unique_b_sound sch s f Hwf) as [H1 [H2 [H3 [H4 H5]]]].
+  exact (op_update_dup sch s f H1 H4 H5 oc st evs s0 i fv sv ch v).
+Qed.
+Print Assumptions unique_duplicate_rejected_update.
+
+(* ... and changes nothing: a transaction whose operations reach such a create / update (after any
+   successful prefix, from any state satisfying the invariant) is rolled back - run_tx returns the state
+   it started from, commits nothing, delivers no events and reports the operation's error last. *)
+Theorem unique_duplicate_changes_nothing : forall sch s f fuel st (t : tx) pre o post st1 evs1,
+  wf_unique_b sch s f = true -> UInv sch s f st ->
+  tx_ops t = pre ++ o :: post ->
+  snd (run_ops sch fuel (mkOctx (tx_sys t) (tx_vetoes t)) (st, []) pre) = Ok (st1, evs1) ->
+  dup_op sch s f st1 o ->
+  exists rs k, run_op sch fuel (mkOctx (tx_sys t) (tx_vetoes t)) (st1, evs1) o = Err k /\
+               run_tx sch fuel st t = (rs ++ [Some k], false, st, []).
+Proof.
+  intros sch s f fuel st t pre o post st1 evs1 Hwf. destruct (wf_unique_b_sound sch s f Hwf) as [H1 [H2 [H3 [H4 H5]]]].
+  exact (dup_tx_rolled_back sch s f H1 H2 H3 H4 H5 fuel st t pre o post st1 evs1).
+Qed.
+Print Assumptions unique_duplicate_changes_nothing.
+
+(* the same in every reachable state (the invariant needs no assumption there) *)
+Theorem unique_duplicate_changes_nothing_reachable : forall sch s f fuel (txs : list tx) (t : tx) pre o post st1 evs1,
+  wf_unique_b sch s f = true ->
+  let st := run_txs sch fuel st_empty txs in
+  tx_ops t = pre ++ o :: post ->
+  snd (run_ops sch fuel (mkOctx (tx_sys t) (tx_vetoes t)) (st, []) pre) = Ok (st1, evs1) ->
+  dup_op sch s f st1 o ->
+  exists rs k, run_tx sch fuel st t = (rs ++ [Some k], false, st, []).
+Proof.
+  intros sch s f fuel txs t pre o post st1 evs1 Hwf st Hops Hpre Hd.
+  destruct (wf_unique_b_sound sch s f Hwf) as [H1 [H2 [H3 [H4 H5]]]].
+  assert (UInv sch s f st) as HU by (apply (run_txs_inv sch s f H1 H2 H3 H4 H5); apply UInv_empty).
+  destruct (dup_tx_rolled_back sch s f H1 H2 H3 H4 H5 fuel st t pre o post st1 evs1 HU Hops Hpre Hd) as [rs [k [_ Hr]]].
+  exists rs, k. exact Hr.
+Qed.
+Print Assumptions unique_duplicate_changes_nothing_reachable.
+
+(* what "the persisted value of f" is for an entity that supplies one *)
+Theorem new_f_is_supplied_value : forall sch s f cr sys fv ch e v d,
+  is_child sch s = false -> find_store sch s = Some d -> declares_field d f = true ->
+  lookup_fv fv f = Some (Some v) -> checked ch f = true -> (cr && sys = false \/ f <> isSystemF) ->
+  new_f sch s f cr sys fv ch e = v.
+Proof. intros sch s f cr sys fv ch e v d H. exact (new_f_supplied sch s f H cr sys fv ch e v d). Qed.
+Print Assumptions new_f_is_supplied_value.
+
+(* A non-nullable unique index never admits an empty value: in every reachable state every present
+   entity of s holds a non-empty value in f. *)
+Theorem nonnull_unique_never_empty : forall sch s f fuel (txs : list tx),
+  wf_unique_b sch s f = true -> In (CUnique f false) (cons_of sch s) ->
+  let st := run_txs sch fuel st_empty txs in
+  forall i, present sch st s i = true -> nonempty (fv_bytes (get_field sch st s i f)) = true.
+Proof.
+  intros sch s f fuel txs Hwf Hnn. destruct (wf_unique_b_sound sch s f Hwf) as [H1 [H2 [H3 [H4 H5]]]].
+  exact (nonnull_unique_never_empty_lemma sch s f H1 H2 H3 H4 H5 Hnn fuel txs).
+Qed.
+Print Assumptions nonnull_unique_never_empty.
